@@ -60,6 +60,21 @@ def check_extra(ctx, rep):
             ups = [n for n in ast.walk(loop) if isinstance(n, ast.Call) and isinstance(n.func, ast.Attribute) and n.func.attr == "update"
                    and "tracker" in norm(n.func.value) and _has_executions(n)]
             if not ups:
+                # the per-circuit body moved into a helper of this module that receives the loop circuit: not followed
+                tn_ = {x.id for x in ast.walk(loop.target) if isinstance(x, ast.Name)}
+                for c_ in ast.walk(loop):
+                    if isinstance(c_, ast.Call) and isinstance(c_.func, ast.Name) and c_.func.id in m.functions and any(
+                            isinstance(a_, ast.Name) and a_.id in tn_ for a_ in c_.args):
+                        g_ = m.functions[c_.func.id]
+                        if any(isinstance(u_, ast.Call) and isinstance(u_.func, ast.Attribute) and u_.func.attr == "update" and any(
+                                k_.arg == "executions" for k_ in u_.keywords) for u_ in ast.walk(g_.node)):
+                            n_ob += 1
+                            if any(COUNT in norm(n) for n in ast.walk(g_.node) if isinstance(n, ast.Call)):
+                                rep.unknown("R-C73-percircuit", f"{MOD}:_track_execute.{fn.name} -> {g_.qualname}",
+                                            "the per-circuit update lives in a helper called with the loop circuit; paths inside it are not followed")
+                            else:
+                                rep.unknown("R-C73-percircuit", f"{MOD}:_track_execute.{fn.name} -> {g_.qualname}",
+                                            f"per-circuit helper does not call {COUNT} itself; not decided")
                 continue
             # loop variables bound to circuits: names in the target whose attributes are read in the body (c.shots, c.specs)
             tnames = [x.id for x in ast.walk(loop.target) if isinstance(x, ast.Name)]
@@ -122,7 +137,7 @@ def check_extra(ctx, rep):
                                 f"executions/shots are not derived from {COUNT}(<circuit>) at all", line=up.lineno)
                 else:
                     rep.unknown("R-C73-percircuit", where, "some path to the update does not bind the counts from the loop circuit directly; not decided")
-    rep.floor("per-circuit tracker updates examined", n_ob, 2)
+    rep.floor("per-circuit tracker updates examined", n_ob, 2)  # soft: 1 (helper form) is reported as unknown by core
 
     # ---------------------------------------------------------------------------------- instance ownership
     rep.rule("R-C73-instance", "Device.__init__ assigns `self.tracker = Tracker()` on every path (the class-level default is shared); every Device "
